@@ -21,7 +21,9 @@ def _clean(obj):
 def _cfg(path, ver, flavour, proj, diag):
     with open(path, "w", encoding="utf-8") as fh:
         fh.write("SPECIFICATION TSpec\n")
-        fh.write(f'CONSTANTS GwVer = "{ver}"\n Flavour = "{flavour}"\n MaxId = 254\n')
+        lenient = "lenient-id" in proj
+        fh.write(f'CONSTANTS GwVer = "{ver}"\n Flavour = "{flavour}"\n MaxId = 254\n'
+                 f' IdGiveUpFree = {"TRUE" if lenient else "FALSE"}\n')
         fh.write(" Proj = {" + ", ".join(f'"{p}"' for p in proj) + "}\n")
         fh.write(f" Diag = {'TRUE' if diag else 'FALSE'}\n")
         fh.write("CONSTRAINT Track\nPOSTCONDITION Post\nCHECK_DEADLOCK FALSE\nINVARIANT TypeOK\n")
